@@ -43,6 +43,7 @@ import (
 	"log"
 	"net"
 	"os"
+	"strings"
 	"sync"
 	"sync/atomic"
 	"time"
@@ -528,7 +529,9 @@ func (server *SugarDB) handleConnection(conn net.Conn) {
 		}
 		if err != nil {
 			log.Println(err)
-			if _, err = w.Write([]byte(fmt.Sprintf("-Error %s\r\n", err.Error()))); err != nil {
+			// An error line must stay one line whatever bytes the message echoes from the request.
+			msg := strings.NewReplacer("\r", " ", "\n", " ").Replace(err.Error())
+			if _, err = w.Write([]byte(fmt.Sprintf("-Error %s\r\n", msg))); err != nil {
 				log.Println(err)
 			}
 			continue
